@@ -300,6 +300,52 @@ def _job(k):
     return lifecycle(_INSTS[k])      # instances hold closures: workers reach them through fork
 
 
+SHADOW_CFG = """SPECIFICATION Spec
+CONSTANTS MaxAddr = {n}
+  Export = {export}
+INVARIANT RoundTrip
+INVARIANT NoSelfAlias
+INVARIANT Saturation
+INVARIANT Terminates
+INVARIANT RefusedOnlyIfInherent
+INVARIANT NeverRefusedWithoutLimit
+INVARIANT Log
+CHECK_DEADLOCK FALSE
+"""
+
+
+def white_box_shadow(run, tier):
+    """specs/CsrShadow.tla: model-checked termination argument for the one place where the code loops;
+    compared with the real (private) _Shadow only to report MODEL DRIFT - never a violation."""
+    from . import tlc
+    n = 9 if tier == "thorough" else 7
+    res = tlc.run("CsrShadow", SHADOW_CFG.format(n=n, export="TRUE"), workers=4, timeout=1500)
+    tlc.require_ok(res, "CsrShadow")
+    run.add_tlc(res, f"CsrShadow (white box, MaxAddr={n}): RoundTrip, NoSelfAlias, Saturation, Terminates, RefusedOnlyIfInherent")
+    info = {"model_ok": bool(res.ok), "layouts": 0, "drift": []}
+    if not res.ok:
+        info["model_error"] = (res.violated or str(res.errors))[:200]
+    try:
+        from amaranth_soc.csr.bus import Multiplexer
+        for rec in res.edges("SHADOW"):
+            sh = Multiplexer._Shadow(8, None if rec["lim"] < 0 else rec["lim"], name="wb")
+            for rg in rec["lay"]:
+                sh.add(range(rg["start"], rg["stop"]))
+            try:
+                sh.prepare()
+                size = sh.size
+            except ValueError:
+                size = 0
+            except RecursionError:
+                size = -1
+            info["layouts"] += 1
+            if size != rec["size"] and len(info["drift"]) < 10:
+                info["drift"].append({"layout": rec["lay"], "limit": rec["lim"], "model": rec["size"], "code": size})
+    except Exception as e:           # private API moved: that is drift too
+        info["drift"].append({"error": f"{type(e).__name__}: {e}"})
+    run.cov["white_box_CsrShadow"] = info
+
+
 def main(tier):
     run = Run("C19", tier, level="exploration")
     thorough = tier == "thorough"
@@ -337,6 +383,7 @@ def main(tier):
     run.cov["refused_descriptively"] = refused
     run.cov["elaborations"] = sum(1 for t in traces for s in t["steps"] if s["i"]["op"] == "elab")
     run.sample({"class": insts[0]["cls"], "params": insts[0]["params"], "life_cycle": [s["i"] for s in traces[0]["steps"]]})
+    white_box_shadow(run, tier)
     return run.finish()
 
 
